@@ -31,8 +31,12 @@ from harness.step import LID, POS, T as TK, TID, Snap
 class _GraphStore:
     """ideal GEFF store filled from the graph object handed to geff.write"""
 
-    def __init__(self, G):
+    def __init__(self, G, order=None):
         self.ids = [int(n) for n in G.nodes]
+        if order == "reversed":
+            # the order of the nodes in a store is the insertion order of the graph, which after an editing session
+            # (delete + undo, re-added nodes) is arbitrary: this variant writes them in descending id order
+            self.ids.reverse()
         self.edges = [(int(u), int(v)) for u, v in G.edges]
         keys = []
         for n in self.ids:
@@ -109,8 +113,9 @@ def geff_harness(ctx, cfg):
         X._restore(saved)
         X.CAP.clear()
     G = w["graph"]
-    store = _GraphStore(G)
+    store = _GraphStore(G, cfg.get("node_order"))
     axis = list(w.get("axis_names") or [])
+    ctx.input("node_order", cfg.get("node_order"))
     ctx.input("op", "roundtrip_geff")
     ctx.input("select", None)
     ctx.input("pos", {str(k): v for k, v in p.pos0.items()})
@@ -157,6 +162,9 @@ def csv_harness(ctx, cfg):
     finally:
         X._restore(saved)
         X.CAP.clear()
+    if cfg.get("node_order") == "reversed":
+        rows.reverse()
+    ctx.input("node_order", cfg.get("node_order"))
     ctx.input("op", "roundtrip_csv")
     ctx.input("select", None)
     ctx.input("pos", {str(k): v for k, v in p.pos0.items()})
